@@ -54,7 +54,7 @@ NoHk == [ev |-> "", seq |-> <<>>, i |-> 0, j |-> 0, rev |-> 0, defs |-> <<>>, ok
 
 NoU == [kind |-> "none", chart |-> "none", replace |-> FALSE, atomic |-> FALSE, cleanup |-> FALSE,
         keep |-> FALSE, nohooks |-> FALSE, lim |-> 0, ver |-> 0, dry |-> FALSE, takeown |-> FALSE,
-        clientOnly |-> FALSE]
+        clientOnly |-> FALSE, createNS |-> FALSE, skipCRDs |-> FALSE]
 
 NoOp == [u |-> NoU,
          keep |-> FALSE, nohooks |-> FALSE, ver |-> 0, lim |-> 0, cleanup |-> FALSE,
@@ -130,10 +130,14 @@ IFail(o) == IF o.u.atomic
             THEN [pc |-> "X_Hist", op |-> [o EXCEPT !.ret = "atomicInstall", !.keep = FALSE]]
             ELSE [pc |-> "I_FailRec", op |-> o]
 
-IAfterOwn(o) ==
-  IF o.u.dry THEN Done(o, "ok")
-  ELSE IF o.u.replace THEN [pc |-> "I_ReplHist", op |-> o]
+IAfterNS(o) ==
+  IF o.u.replace THEN [pc |-> "I_ReplHist", op |-> o]
   ELSE [pc |-> "I_Create", op |-> [o EXCEPT !.new = 1]]
+
+IAfterOwn(o) ==
+  IF o.u.dry THEN Done(o, "ok")                                  \* "Bail out here if it is a dry run"
+  ELSE IF o.u.createNS THEN [pc |-> "I_CreateNS", op |-> o]
+  ELSE IAfterNS(o)
 
 IOwnNext(o) ==
   IF Len(o.tseq) <= 1 THEN IAfterOwn([o EXCEPT !.tseq = <<>>])
@@ -142,6 +146,11 @@ IOwnNext(o) ==
 IOwnStart(o) ==
   LET o1 == [o EXCEPT !.tseq = ManOrder(o.tgtman), !.adopted = {}] IN
   IF o1.tseq = <<>> \/ o.u.clientOnly THEN IAfterOwn([o1 EXCEPT !.tseq = <<>>]) ELSE [pc |-> "I_Own", op |-> o1]
+
+\* crds/ objects are installed before rendering (and before the schema gate, L19), never on a dry run
+ICRDStart(o) ==
+  IF o.u.dry \/ o.u.clientOnly \/ o.u.skipCRDs \/ ChartCRDs(o.u.chart) = <<>> THEN IOwnStart(o)
+  ELSE [pc |-> "I_CRD", op |-> [o EXCEPT !.dseq = ChartCRDs(o.u.chart), !.uerr = FALSE]]
 
 (* ----- kube.Client.update -------------------------------------------------- *)
 
@@ -492,8 +501,31 @@ I_Name(p) ==
   /\ LET o == op[p] IN
      StoreRead(p, "query", "history", Used # {},
                IF Used = {} \/ (o.u.replace /\ store[Last].st \in {"uninstalled", "failed"})
-               THEN IOwnStart(o)
+               THEN ICRDStart(o)
                ELSE Done(o, "err"))
+
+\* installCRDs: one Create per file; already-exists is skipped; then a readiness wait for those created
+I_CRD(p) ==
+  /\ pc[p] = "I_CRD" /\ Budgets
+  /\ LET o == op[p]  c == Head(o.dseq)
+         nxt(oo) == IF Len(oo.dseq) <= 1
+                    THEN IF oo.uerr THEN [pc |-> "I_CRDWait", op |-> [oo EXCEPT !.dseq = <<>>]]
+                         ELSE IOwnStart([oo EXCEPT !.dseq = <<>>])
+                    ELSE [pc |-> "I_CRD", op |-> [oo EXCEPT !.dseq = Tail(@)]] IN
+     IF Present(c)
+     THEN ResCall(p, "POST", c, FALSE, cluster, nxt(o), Done(o, "err"))            \* 409: "CRD is already present. Skipping"
+     ELSE ResCall(p, "POST", c, TRUE, [cluster EXCEPT ![c] = HookObj], nxt([o EXCEPT !.uerr = TRUE]), Done(o, "err"))
+
+I_CRDWait(p) ==
+  /\ pc[p] = "I_CRDWait" /\ Budgets
+  /\ LET o == op[p] IN
+     WaitCall(p, "wait", "all", IOwnStart([o EXCEPT !.uerr = FALSE]), Done(o, "err"))
+
+\* --create-namespace: the namespace exists in every scenario, AlreadyExists is tolerated
+I_CreateNS(p) ==
+  /\ pc[p] = "I_CreateNS" /\ Budgets
+  /\ LET o == op[p] IN
+     ResCall(p, "POST", "ns1", FALSE, cluster, IAfterNS(o), Done(o, "err"))
 
 \* existingResourceConflict / requireAdoption: one GET per rendered resource
 I_Own(p) ==
@@ -799,7 +831,7 @@ BeginT(m) ==
                         !.lim = m.lim, !.cleanup = m.cleanup] IN
   CASE m.kind = "install"   -> LET o1 == [o EXCEPT !.tgtman = ChartMan(m.chart)] IN
                                IF m.clientOnly THEN Done(o1, "ok")
-                               ELSE IF m.dry THEN IOwnStart(o1) ELSE [pc |-> "I_Name", op |-> o1]
+                               ELSE IF m.dry THEN ICRDStart(o1) ELSE [pc |-> "I_Name", op |-> o1]
     [] m.kind = "upgrade"   -> [pc |-> "U_Last", op |-> o]
     [] m.kind = "rollback"  -> [pc |-> "R_Last", op |-> o]
     [] m.kind = "uninstall" -> [pc |-> "X_Hist", op |-> o]
@@ -863,7 +895,7 @@ CallStep(p) ==
   \/ H_DelBefore(p) \/ H_Record(p) \/ H_Create(p) \/ H_Watch(p) \/ H_DelFailed(p) \/ H_DelPrev(p) \/ H_DelSucc(p)
   \/ K_Get(p) \/ K_Post(p) \/ K_Get2(p) \/ K_Patch(p) \/ K_Refresh(p) \/ K_DGet(p) \/ K_Del(p)
   \/ P_Hist(p) \/ P_Dep(p) \/ P_Del(p)
-  \/ I_Name(p) \/ I_Own(p) \/ I_ReplHist(p) \/ I_ReplUpdate(p) \/ I_Create(p) \/ I_CreateRes(p)
+  \/ I_Name(p) \/ I_CRD(p) \/ I_CRDWait(p) \/ I_CreateNS(p) \/ I_Own(p) \/ I_ReplHist(p) \/ I_ReplUpdate(p) \/ I_Create(p) \/ I_CreateRes(p)
   \/ I_Wait(p) \/ I_Deployed(p) \/ I_FailRec(p)
   \/ X_Hist(p) \/ X_Mark(p) \/ X_Del(p) \/ X_RecUn(p) \/ X_Purge(p)
   \/ U_Last(p) \/ U_Deployed(p) \/ U_Own(p) \/ U_Create(p) \/ U_ReRecord(p) \/ U_Wait(p)
